@@ -467,6 +467,17 @@ pub fn alphabet(m: &Model, cfg: &Config, p: &Profile) -> Vec<Op> {
                 }
             }
         }
+        // the last aligned blocks of the sub-row orders in the managed range (single
+        // compare-exchange on a narrower integer)
+        for o in if p.wild_change { vec![3usize, 4, 5, 6] } else { vec![] } {
+            let len = 1usize << o;
+            if n >= len {
+                targets.push(((n - len) / len * len, o));
+            }
+            if n >= 2 * HUGE_FRAMES {
+                targets.push((n / HUGE_FRAMES * HUGE_FRAMES - HUGE_FRAMES + len, o));
+            }
+        }
         // inside / next to held blocks
         for &(s, o) in chosen.iter().take(2) {
             targets.push((s, 0));
